@@ -129,85 +129,107 @@ type trigger struct {
 }
 
 func (v *Env) evalForall(guard *Term, x *SExpr) *Term {
-	if len(x.Vars) != 1 {
-		v.fail("forall with several variables is not supported: %s", x)
+	if len(x.Vars) > 2 {
+		v.fail("forall with more than two variables is not supported: %s", x)
 	}
-	name := x.Vars[0]
+	names := x.Vars
 	body := x.Args[0]
 	if v.polarity == polProve {
-		j := Fresh("sk."+name, I64)
-		saved, had := v.vars[name]
-		v.vars[name] = Scalar{j}
+		saved := map[string]Value{}
+		for _, name := range names {
+			if old, had := v.vars[name]; had {
+				saved[name] = old
+			}
+			v.vars[name] = Scalar{Fresh("sk."+name, I64)}
+		}
 		r := v.evalGuardedBody(guard, body)
-		if had {
-			v.vars[name] = saved
-		} else {
-			delete(v.vars, name)
+		for _, name := range names {
+			if old, had := saved[name]; had {
+				v.vars[name] = old
+			} else {
+				delete(v.vars, name)
+			}
 		}
 		return r
 	}
 	// assume: register an instantiable hypothesis
-	var trigs []trigger
-	collectTriggers(body, name, v.inOld, &trigs)
-	if len(trigs) == 0 {
-		v.fail("forall %s has no index pattern x[%s+c] to instantiate on: %s", name, name, x)
-	}
-	// snapshot the environment
 	snap := *v
 	snap.vars = map[string]Value{}
 	for k, val := range v.vars {
 		snap.vars[k] = val
 	}
 	pc := v.cur.pc
-	for _, tg := range trigs {
-		tg := tg
-		sv := snap
-		sv.inOld = tg.inOld
-		sv.vars = map[string]Value{}
-		for k, val := range snap.vars {
-			sv.vars[k] = val
+	q := &QHyp{at: len(v.e.ctx.hyps), idx: len(v.e.ctx.qhyps), nvars: len(names), cache: map[string]*Term{}}
+	for _, name := range names {
+		var trigs []trigger
+		collectTriggers(body, name, v.inOld, &trigs)
+		if len(trigs) == 0 {
+			v.fail("forall %s has no index pattern x[%s+c] to instantiate on: %s", name, name, x)
 		}
-		sv.vars[name] = Scalar{ConstI(0, I64)}
-		arrV := sv.eval(tg.arr)
-		var ptr *Term
-		var elem types.Type
-		ghostFam := ""
-		switch a := arrV.(type) {
-		case GhostMapV:
-			ptr = ConstI(0, I64)
-			ghostFam = "ghost:" + a.Name
-		case SliceV:
-			ptr, elem = a.Ptr, a.Elem
-		case PtrV:
-			if a.Kind == pArr {
-				ptr = a.Addr
-				elem = under(a.T).(*types.Array).Elem()
+		var qts []qtrig
+		for _, tg := range trigs {
+			// the array expression and the offset must not depend on the other bound variable
+			dep := false
+			for _, other := range names {
+				if other != name && (mentions(tg.arr, other) || mentions(tg.idx, other)) {
+					dep = true
+				}
 			}
-		}
-		if ptr == nil {
-			v.fail("forall trigger %s is not a slice or array", tg.arr)
-		}
-		c := v.e.toI64(sv.eval(tg.idx)) // idx with name := 0
-		fam := ghostFam
-		if fam == "" {
-			fam = "elem:" + typeName(elem)
-		}
-		q := &QHyp{at: len(v.e.ctx.hyps), idx: len(v.e.ctx.qhyps), family: fam, done: map[int]bool{}, cache: map[int]*Term{}}
-		q.solve = func(addr *Term) []*Term {
-			return []*Term{SubNW(SubNW(addr, ptr), c)}
-		}
-		q.body = func(j *Term) *Term {
-			ev := snap
-			ev.vars = map[string]Value{}
+			if dep {
+				continue
+			}
+			sv := snap
+			sv.inOld = tg.inOld
+			sv.vars = map[string]Value{}
 			for k, val := range snap.vars {
-				ev.vars[k] = val
+				sv.vars[k] = val
 			}
-			ev.vars[name] = Scalar{j}
-			ev.polarity = polAssume
-			return Imp(pc, ev.evalGuardedBody(guard, body))
+			sv.vars[name] = Scalar{ConstI(0, I64)}
+			arrV := sv.eval(tg.arr)
+			var ptr *Term
+			var elem types.Type
+			ghostFam := ""
+			switch a := arrV.(type) {
+			case GhostMapV:
+				ptr = ConstI(0, I64)
+				ghostFam = "ghost:" + a.Name
+			case SliceV:
+				ptr, elem = a.Ptr, a.Elem
+			case PtrV:
+				if a.Kind == pArr {
+					ptr = a.Addr
+					elem = under(a.T).(*types.Array).Elem()
+				}
+			}
+			if ptr == nil {
+				v.fail("forall trigger %s is not a slice or array", tg.arr)
+			}
+			c := v.e.toI64(sv.eval(tg.idx)) // idx with name := 0
+			fam := ghostFam
+			if fam == "" {
+				fam = "elem:" + typeName(elem)
+			}
+			p0, c0 := ptr, c
+			qts = append(qts, qtrig{family: fam, solve: func(addr *Term) *Term { return SubNW(SubNW(addr, p0), c0) }})
 		}
-		v.e.ctx.qhyps = append(v.e.ctx.qhyps, q)
+		if len(qts) == 0 {
+			v.fail("forall %s: no usable trigger for %s", x, name)
+		}
+		q.trigs = append(q.trigs, qts)
 	}
+	q.body = func(js []*Term) *Term {
+		ev := snap
+		ev.vars = map[string]Value{}
+		for k, val := range snap.vars {
+			ev.vars[k] = val
+		}
+		for i, name := range names {
+			ev.vars[name] = Scalar{js[i]}
+		}
+		ev.polarity = polAssume
+		return Imp(pc, ev.evalGuardedBody(guard, body))
+	}
+	v.e.ctx.qhyps = append(v.e.ctx.qhyps, q)
 	return True
 }
 
@@ -726,6 +748,9 @@ func (v *Env) selector(x *SExpr) Value {
 		nm := x.Args[0].Name
 		if _, isVar := v.vars[nm]; !isVar && !v.isLocalName(nm) {
 			if pk := v.lookupPkg(nm); pk != nil {
+				if v.e.C.GhostMaps[x.Name] {
+					return GhostMapV{x.Name}
+				}
 				obj := pk.Scope().Lookup(x.Name)
 				if obj == nil {
 					v.fail("%s.%s not found", nm, x.Name)
@@ -1134,9 +1159,9 @@ func (v *Env) unchangedExcept(s SliceV) *Term {
 			continue
 		}
 		pc := cur.pc
-		q := &QHyp{at: len(e.ctx.hyps), idx: len(e.ctx.qhyps), family: lf.key, done: map[int]bool{}, cache: map[int]*Term{}}
-		q.solve = func(addr *Term) []*Term { return []*Term{addr} }
-		q.body = func(a *Term) *Term { return Imp(pc, body(a)) }
+		q := &QHyp{at: len(e.ctx.hyps), idx: len(e.ctx.qhyps), nvars: 1, cache: map[string]*Term{}}
+		q.trigs = [][]qtrig{{{family: lf.key, solve: func(addr *Term) *Term { return addr }}}}
+		q.body = func(as []*Term) *Term { return Imp(pc, body(as[0])) }
 		e.ctx.qhyps = append(e.ctx.qhyps, q)
 	}
 	return res
